@@ -1001,6 +1001,13 @@ class ZoneAnalysis:
                             s = Site(body.path, bi, 'callee', '%s<-%s' % (tgt.split('::')[-1], (ps.origin or ps).key()),
                                      need if ok_expr else None, t['line'], t.get('span'))
                             s.origin = ps.origin or ps
+                            ex = []
+                            for (e1, e2) in getattr(ps, 'pre_extra', None) or []:
+                                a, b = self.subst(zf, t, e1), self.subst(zf, t, e2)
+                                if a is not None and b is not None:
+                                    ex.append((a, b))
+                            if ex:
+                                s.extra = ex
                             add(s)
         # discharge
         for s in zf.sites:
@@ -1317,6 +1324,8 @@ class ZoneAnalysis:
             if all(self._param_term_ok(zf, t1) and self._param_term_ok(zf, t2) for (t1, t2) in unproved) and not zf.body.kind == 'Closure':
                 s.status = 'pre'
                 s.pre = unproved
+                # the assumptions under which the site is reached at all (the closure body runs only for a non-empty list): callers may use them
+                s.pre_extra = [(e1, e2) for (e1, e2) in extra if self._param_term_ok(zf, e1) and self._param_term_ok(zf, e2)]
                 return
             # try to express through equalities known at the block (e.g. L == len(messages))
             rew = self._rewrite_to_params(zf, unproved, b)
